@@ -542,7 +542,7 @@ def _in_killable_child(body, data, budget: float) -> Outcome:
             o = body(data)
             payload = {"nontrivial": o.nontrivial, "labels": o.labels, "units": o.units,
                        "failures": [[f.bucket, f.detail, f.info if isinstance(f.info, (dict, list, str, int, type(None))) else None] for f in o.failures]}  # fmt: skip
-            os.write(w, _json.dumps(payload, default=str).encode())
+            os.write(w, _json.dumps(payload, default=str).encode() + b"\n")
         finally:
             os._exit(0)
     os.close(w)
@@ -553,9 +553,9 @@ def _in_killable_child(body, data, budget: float) -> Outcome:
         ready, _, _ = select.select([r], [], [], 0.5)
         if ready:
             chunk = os.read(r, 1 << 20)
-            if not chunk:
-                break
             buf += chunk
+            if not chunk or buf.endswith(b"\n"):  # (pool workers of the child may keep the pipe open: do not wait for EOF)
+                break
     try:
         os.killpg(pid, 9)
     except OSError:
